@@ -49,3 +49,30 @@ package aurora
 //@   ensures accepted-only-if-the-signature-binds-all-four: result1 == nil ==> seq(overlay) == ovlOf(recX(seq(signature), signData(seq(underlay), seq(overlay), int(networkID))), recY(seq(signature), signData(seq(underlay), seq(overlay), int(networkID))), int(networkID))
 //@   ensures record-carries-the-inputs: result1 == nil ==> result0 != nil && result0.Overlay == addrOf(seq(overlay)) && result0.Signature == signature && result0.Underlay != nil && ref(result0.Underlay) == maOfBytes(seq(underlay))
 //@   ensures rejected-returns-nothing: result1 != nil ==> result0 == nil
+
+//@ # ---- C37: a node mode taken from a handshake message is safe to ask ----------------------------
+//@ # (proved in pkg/bitvector, C39)
+//@ extern func github.com/gauss-project/aurorafs/pkg/bitvector.NewFromBytes
+//@   ensures (result1 != nil) <==> (l <= 0 || len(b)*8 < l)
+//@   ensures result1 != nil ==> result0 == nil
+//@   ensures result1 == nil ==> result0 != nil && result0.b == b
+//@   assigns nothing
+//@ extern func github.com/gauss-project/aurorafs/pkg/bitvector.New
+//@   ensures result0 != nil
+//@   assigns nothing
+//@ extern func (*github.com/gauss-project/aurorafs/pkg/bitvector.BitVector).Get
+//@   requires bv != nil && 0 <= i && i < 8*len(bv.b)
+//@   assigns nothing
+
+//@ # an accepted node mode has a vector of at least one byte
+//@ func NewModelFromBytes
+//@   property C37
+//@   ensures accepted-mode-has-a-byte: result1 == nil ==> result0.Bv != nil && len(result0.Bv.b) >= 1
+
+//@ func (Model).IsFull
+//@   property C37
+//@   requires m.Bv != nil && len(m.Bv.b) >= 1
+
+//@ func (Model).IsBootNode
+//@   property C37
+//@   requires m.Bv != nil && len(m.Bv.b) >= 1
